@@ -227,6 +227,13 @@ func (m ClientState) RestrictChain(cdc codec.BinaryCodec, store storetypes.KVSto
 		}
 		current = *tmpConsensus
 	}
+	// new and current now sit at the same height ti and share their parent (the fork point): new is the
+	// first block of the new branch, so it joins the main chain as well
+	if !bytes.Equal(current.Hash().Bytes(), new.Hash().Bytes()) {
+		newHashes = append(newHashes, new.Hash())
+	} else {
+		ti.RevisionHeight++
+	}
 	for i := len(newHashes) - 1; i >= 0; i-- {
 		newTmp := store.Get(EthHeaderIndexKey(newHashes[i], ti.GetRevisionHeight()))
 		if newTmp == nil {
